@@ -12,7 +12,7 @@ LEVEL = "exploration"
 RULE = ("case = one drive of run_wrapper / stage_wrapper / lazily_stage_wrapper / subs_wrapper / suspend_wrapper / "
         "monitor_during_wrapper / fly_during_wrapper around a seeded inner plan (3..10 messages on a seeded device tree with "
         "shared ancestors; for the *_during wrappers 1-2 runs built with run_wrapper) whose behaviour is: succeeds, raises "
-        "at yield i, is stopped (RequestStop thrown) at i, aborted (RequestAbort) at i, for every i; the consumer simulates "
+        "at yield i, is stopped (RequestStop thrown) at i, aborted (RequestAbort) at i, for every i, plus (stage/subs/suspend wrappers) the engine failing the wrapper's own k-th set-up message; the consumer simulates "
         "RunEngine responses (uids, ophyd-style staged lists, subscription tokens); trace oracle: exactly one close_run per "
         "open_run with the status of the outcome; every device a wrapper staged is unstaged exactly once and in reverse "
         "order; every token/suspender installed is removed; unmonitor / complete+collect for every device before each "
@@ -20,7 +20,7 @@ RULE = ("case = one drive of run_wrapper / stage_wrapper / lazily_stage_wrapper 
 ASSUMPTIONS = ["stage responses follow ophyd: the list of the device and all its descendants",
                "close() of the wrapper (GeneratorExit) is a different exit and is not judged here (C22)"]
 REQUIRED_COUNTERS = {"drives": 2000, "failing_bodies": 400, "stopped_bodies": 300, "aborted_bodies": 300,
-                     "shared_ancestor_trees": 200, "undo_checks": 2000}
+                     "shared_ancestor_trees": 200, "undo_checks": 2000, "setup_faults": 200}
 MANIFEST = {
     "technique": "trace oracle on the real wrappers driven as generators with simulated engine responses over seeded inner "
                  "plans, device trees and every failure/stop/abort position",
@@ -92,6 +92,9 @@ def gen_cases(tier, seed):
     return [{"start": s, "count": 35, "seed": seed} for s in range(0, n, 35)]
 
 
+SETUP_COMMANDS = ("stage", "subscribe", "install_suspender")
+
+
 def respond(msg, state):
     if msg.command == "open_run":
         state["n"] += 1
@@ -115,6 +118,7 @@ def drive(gen, behaviour, pos):
     state = {"n": 0, "tok": 100}
     outcome = None
     body_seen = 0
+    setup_seen = 0
     try:
         msg = gen.send(None)
         while True:
@@ -122,17 +126,26 @@ def drive(gen, behaviour, pos):
             is_body = msg.kwargs.get("_body") is True
             if is_body:
                 body_seen += 1
-            if behaviour != "success" and is_body and body_seen == pos:
+            elif msg.command in SETUP_COMMANDS:
+                setup_seen += 1
+                if behaviour == "setup" and setup_seen == pos:
+                    # the engine fails one of the wrapper's OWN set-up messages (a stage() that raises, ...)
+                    state["fault_idx"] = len(trace) - 1
+                    behaviour = "done"   # (before the throw: it may propagate straight out of the wrapper)
+                    msg = gen.throw(ValueError("body failed"))
+                    continue
+            if behaviour not in ("success", "setup") and is_body and body_seen == pos:
                 exc = {"raise": ValueError("body failed"), "stop": RequestStop(), "abort": RequestAbort()}[behaviour]
-                behaviour_done = True
+                behaviour = "done"   # (before the throw: it may propagate straight out of the wrapper)
                 msg = gen.throw(exc)
-                behaviour = "done"
                 continue
             msg = gen.send(respond(msg, state))
     except StopIteration as s:
         outcome = ("return", s.value)
     except BaseException as e:  # noqa: BLE001
         outcome = ("raise", e)
+    if "fault_idx" in state:
+        outcome = outcome + (state["fault_idx"],)
     return trace, outcome, behaviour == "done"
 
 
@@ -201,19 +214,28 @@ def run_case(case):
                 if behaviour != "success" and not fired:
                     continue
                 results.append((behaviour, pos, trace, outcome))
+        if wname in ("stage_wrapper", "lazily_stage_wrapper", "subs_wrapper", "suspend_wrapper"):
+            for pos in range(1, 8):
+                trace, outcome, fired = drive(build(), "setup", pos)
+                if not fired:
+                    break
+                results.append(("setup", pos, trace, outcome))
         counters = {"drives": len(results), "failing_bodies": sum(1 for r in results if r[0] == "raise"),
                     "stopped_bodies": sum(1 for r in results if r[0] == "stop"),
                     "aborted_bodies": sum(1 for r in results if r[0] == "abort"),
-                    "shared_ancestor_trees": int(shared), "undo_checks": 0}
+                    "shared_ancestor_trees": int(shared), "undo_checks": 0,
+                    "setup_faults": sum(1 for r in results if r[0] == "setup")}
         problems = []
         for behaviour, pos, trace, outcome in results:
             cmds = [(m.command, m.obj) for m in trace]
             where = f"{behaviour}@{pos}"
+            fault_idx = outcome[2] if len(outcome) > 2 else None   # the set-up message that failed: its effect is unknown
+            ok_trace = [m for j, m in enumerate(trace) if j != fault_idx]
             counters["undo_checks"] += 1
             # the outcome must be preserved
             if behaviour == "success" and outcome[0] != "return":
                 problems.append((f"{wname}:success-turned-into-{type(outcome[1]).__name__}", where))
-            if behaviour == "raise" and not (outcome[0] == "raise" and isinstance(outcome[1], ValueError)):
+            if behaviour in ("raise", "setup") and not (outcome[0] == "raise" and isinstance(outcome[1], ValueError)):
                 problems.append((f"{wname}:exception-lost", f"{where}: {outcome}"))
             if behaviour in ("stop", "abort") and not (outcome[0] == "raise" and isinstance(outcome[1], (RequestStop, RequestAbort))):
                 problems.append((f"{wname}:stop-abort-signal-lost", f"{where}: {outcome}"))
@@ -231,7 +253,7 @@ def run_case(case):
                     if behaviour == "raise" and last.kwargs.get("reason") != "body failed":
                         problems.append((f"{wname}:fail-reason-lost", f"{where}: {last.kwargs.get('reason')!r}"))
             if wname in ("stage_wrapper", "lazily_stage_wrapper"):
-                staged = [m.obj for m in trace if m.command == "stage"]
+                staged = [m.obj for m in ok_trace if m.command == "stage"]
                 unstaged = [m.obj for m in trace if m.command == "unstage"]
                 for d in staged:
                     if unstaged.count(d) != 1:
@@ -259,15 +281,19 @@ def run_case(case):
             if wname == "subs_wrapper":
                 toks = []
                 # tokens handed out = responses to subscribe messages: 101, 102, ...
-                nsub = sum(1 for m in trace if m.command == "subscribe")
+                nsub = sum(1 for m in ok_trace if m.command == "subscribe")
                 handed = list(range(101, 101 + nsub))
                 removed = [m.kwargs.get("token", m.args[0] if m.args else None) for m in trace if m.command == "unsubscribe"]
                 if sorted(removed) != handed:
                     problems.append((f"{wname}:tokens-not-all-removed-once:{behaviour}", f"{where}: handed {handed} removed {removed}"))
             if wname == "suspend_wrapper":
-                inst = [m.args[0] for m in trace if m.command == "install_suspender"]
+                inst = [m.args[0] for m in ok_trace if m.command == "install_suspender"]
                 rem = [m.args[0] for m in trace if m.command == "remove_suspender"]
-                if sorted(map(id, inst)) != sorted(map(id, rem)) or len(inst) != len(susp):
+                if fault_idx is not None:
+                    # the installation of one failed: the cleanup may also remove that one and the ones it never got to;
+                    # the installed ones must be removed exactly once
+                    rem = [x for x in rem if any(x is y for y in inst)]
+                if sorted(map(id, inst)) != sorted(map(id, rem)) or (fault_idx is None and len(inst) != len(susp)):
                     problems.append((f"{wname}:suspenders-not-all-removed-once:{behaviour}", f"{where}: {len(inst)} installed {len(rem)} removed"))
             if wname in ("monitor_during_wrapper", "fly_during_wrapper"):
                 # segment per run: between open_run and close_run
